@@ -142,6 +142,13 @@ EXPECT.append({"src": "ch = make(chan int64, 1); ch <- 1; m = {}\nfunc bad() { t
 EXPECT.append({"src": "#cancel=6\nch = make(chan int64, 1); ch <- 1; m = {}\nfunc spin() { for { } }\nv, m[spin()] = <-ch\nprobe(\"after\")", "field": "msg", "want": "execution interrupted", "finding": "receive-ok-target-error-ignored",
                "why": "a cancellation while the ok target of a receive statement is evaluated is not swallowed"})
 
+# throw aborts evaluation whatever it throws - the empty string, nil, false and 0 included
+for _v, _vn in (("\"\"", "the empty string"), ("nil", "nil"), ("false", "false"), ("0", "zero"), ("\"x\"", "a string"), ("\" \"", "a blank")):
+    EXPECT.append({"src": "x = 0\ntry { throw %s; x = 1 } catch e { x = 2 }\nx" % _v, "field": "result", "want": "i:2", "why": "throw of %s aborts the try body and runs catch" % _vn})
+    EXPECT.append({"src": "func f() { throw %s; probe(\"after the throw\") }\nf()\nprobe(\"after the call\")" % _v, "field": "trace", "want": "", "why": "after a throw of %s nothing executes" % _vn})
+    EXPECT.append({"src": "func f() { throw %s; probe(\"after the throw\") }\nf()\nprobe(\"after the call\")" % _v, "field": "status", "want": "err", "why": "... and the host gets an error"})
+    EXPECT.append({"src": "r = []\nfunc f() { defer func() { r += \"d\" }(); throw %s }\ntry { f() } catch e { r += \"c\" }\nr" % _v, "field": "result", "want": "[s:64,s:63]", "why": "a throw of %s leaves the function through its deferred calls to the caller's catch" % _vn})
+
 # a break or continue outside any loop of its own function is a runtime error of that function: it leaves the function as an
 # error, reaches the nearest try (or the host), and is never taken for the caller's own loop control
 for _body, _call, _how in (("func f() { %s }", "f()", "a function without parameters"), ("func f(a, b, c, d, e) { %s }", "f(1, 2, 3, 4, 5)", "a function of five parameters"),
